@@ -123,6 +123,8 @@ func runE2E(e *E2E) {
 	lax := false
 	var laxControl *ctl
 	var refDigest, trueDigest []byte
+	var tapSig, tapPk, tapAnnex []byte // taproot: what CheckSchnorrSignature is handed in the end
+	var tapExt *refExt
 	htb := byte(e.Ht)
 	switch e.Kind {
 	case "p2pkh", "bare":
@@ -234,8 +236,12 @@ func runE2E(e *E2E) {
 			defined = false // SIGHASH_DEFAULT must not be spelled out
 		}
 		wit = [][]byte{sig}
+		tapSig, tapAnnex, tapExt = sig, annex, ext
 		if ts != nil {
 			wit = append(wit, ts, control)
+			tapPk, _ = xonlyPub(d)
+		} else {
+			tapPk = q
 		}
 		if annex != nil {
 			wit = append(wit, annex)
@@ -257,23 +263,40 @@ func runE2E(e *E2E) {
 	if lax && !e.NoDer {
 		want = false // BIP66: a padded signature is not strict DER
 	}
+	// three states: a recovered panic is NOT "invalid" - no spend built here (input in range, one spent output per
+	// input, every push well-formed) may make the interpreter panic, whatever the expected verdict is
+	panicked := ""
 	verify := func(spk, scriptSig []byte) (ok bool) {
 		defer func() {
-			if recover() != nil {
+			if x := recover(); x != nil {
 				ok = false
+				panicked = fmt.Sprint(x)
 			}
 		}()
 		tx.TxIn[idx].ScriptSig = scriptSig
 		return script.VerifyTxScript(spk, &script.SigChecker{Tx: tx, Idx: idx, Amount: amount}, flags)
 	}
 	if laxControl != nil && want {
-		if !verify(laxControl.spk, laxControl.scriptSig) {
+		if !verify(laxControl.spk, laxControl.scriptSig) && panicked == "" {
 			r.Hit("e2e:lax-der-encoding-not-accepted-by-the-interpreter(skipped)")
 			return
 		}
 		r.Hit("e2e:lax-der-control-accepted")
 	}
 	got := verify(spk, scriptSig)
+	if panicked != "" {
+		r.Hit("e2e:verify:panic")
+		r.Eval("e2e:"+e.Kind+":panic", "")
+		if len(panicked) > 200 {
+			panicked = panicked[:200]
+		}
+		r.PropFail("e2e-verify-panics", fmt.Sprintf("%s spend of input %d with hash type 0x%02x (signature made over %s digest, expected verdict %v): VerifyTxScript panics: %s", e.Kind, idx, e.Ht, e.Mode, want, panicked), map[string]interface{}{"e2e": e})
+		return
+	}
+	r.Hit(fmt.Sprintf("e2e:verify:%v", got))
+	if tapSig != nil {
+		e2eSchnorrTie(e, &c, tapSig, tapPk, tapAnnex, e.Annex != nil, tapExt, fmt.Sprint(got))
+	}
 	class := e.Mode
 	if lax && e.NoDer {
 		class += ",pre-bip66-lax-sig"
